@@ -402,6 +402,20 @@ func (e *GenEnv) build(s *GenSpec) *Built {
 			}
 			return F{"c": "pred", "ok": ok && in}
 		}}
+	case "RuneSampled": // a rune generator over a few given code points, which may include values that are not valid runes (surrogates)
+		rs := make([]rune, len(s.Items))
+		for i, x := range s.Items {
+			n, _ := strconv.ParseInt(x, 0, 32)
+			rs[i] = rune(n)
+		}
+		return &Built{G: rapid.SampledFrom(rs).AsAny(), Desc: s.K, Check: func(v any) F {
+			r, ok := v.(rune)
+			in := false
+			for _, x := range rs {
+				in = in || x == r
+			}
+			return F{"c": "pred", "ok": ok && in}
+		}}
 	case "String", "StringN", "StringOf", "StringOfN":
 		minR, maxR, maxB := optInt(s.MinLen, -1), optInt(s.MaxLen, -1), optInt(s.MaxBytes, -1)
 		var g AnyG
